@@ -3,7 +3,7 @@
    [mk_screen rows arity ctrl tmap smap obs_given mask_given = Ok s] is "s can be constructed". *)
 From Coq Require Import ZArith List Bool.
 From Batchie Require Import Lib.Sexp Lib.PyRt Generated.Consts Model.Encode Model.Screen
-  Proofs.C01Encode Proofs.C01Screen Proofs.C01Props Generated.SrcArith
+  Proofs.C01Encode Proofs.C01Screen Proofs.C01Props Generated.SrcArithC01
   Generated.SrcEncode Generated.SrcScreenIds Proofs.C01Source Proofs.C01SourceInit.
 Import ListNotations.
 Open Scope Z_scope.
@@ -220,7 +220,7 @@ Theorem C01_model_is_source_assign : forall (ctrl : name) (keys : list tkey),
 Proof. exact src_built_frame_rows. Qed.
 Print Assumptions C01_model_is_source_assign.
 
-(* the round-1 constant src_dose_is_control (Generated/SrcArith.v) is the comparison the translation applies to the
+(* the round-1 constant src_dose_is_control (Generated/SrcArithC01.v) is the comparison the translation applies to the
    dose column: redundant now, and consistent *)
 Theorem C01_model_is_source_dose_test_consistent : forall doses : list Z,
   series_le0 doses = map src_dose_is_control doses.
